@@ -62,6 +62,30 @@ NOFACTS = (False, False, True, False)
 AFTER_PATHS = ['CellInt', 'SliceScalar', 'SliceSeq', 'IndexList', 'Selection', 'RowAttr', 'WholeSeq', 'WholeScalar']
 
 
+# ---- writes that address NO cell ------------------------------------------------------------------------------
+# A scalar written through a form that addresses zero cells (empty selection / slice / index list, whole column of
+# a zero-row table): _tosequence still evaluates the coercion of the scalar, so the accept / reject verdict must be
+# the one of every other path (Spec/Table.rhs_cells with n = 0).  Path = 'Zero/<state>/<form>'.
+# forms applied to a table in one of the CV_STATES (3 rows) or ZERO_EXTRA_STATES
+ZERO_FORMS = ['EmptySel', 'EmptySelAnd', 'EmptySlice00', 'EmptySliceEnd', 'EmptySliceRev', 'EmptyList',
+              'EmptyTuple', 'EmptyNpIndex', 'SelTableWhole', 'SelTableSetItem', 'SelTableSel', 'SelTableSliceAll',
+              'SliceTableWhole', 'SliceTableSel', 'ShrunkWhole', 'ShrunkSel', 'ShrunkSliceAll', 'ShrunkList']
+ZERO_EXTRA_STATES = ['perm', 'permSelect', 'len0', 'len0Cat', 'len0Sorted']
+# forms that build their own zero-row table (state '-')
+ZERO_CTOR_FORMS = ['Len0Ctor', 'Len0New', 'NoLenNew', 'Len0NewSetItem']
+# quick tier: every form on these states, these forms on every state
+ZERO_STATES_QUICK = ['fresh', 'cat', 'sorted', 'perm', 'permSelect', 'len0']
+ZERO_FORMS_QUICK = ['EmptySel', 'EmptySelAnd', 'EmptyList', 'EmptySlice00', 'SelTableWhole', 'SelTableSel',
+                    'ShrunkWhole', 'ShrunkSel']
+ZERO_CORE = [('fresh', 'EmptySel'), ('fresh', 'EmptySlice00'), ('fresh', 'EmptyList'), ('len0', 'SelTableWhole'),
+             ('perm', 'EmptySel'), ('-', 'Len0Ctor')]
+
+
+def zero_values_small():
+    return [1, 2.5, ' 4.50 ', 'abc', '', None, float('nan'), float('inf'), np.float64('nan'), np.int64(7), True,
+            Obj(), 2 ** 53 + 1]
+
+
 def cv_values():
     return [0, 1, -13, 2 ** 53 + 1, True, 0.0, -0.0, 1.0, 2.5, 1e22, float('nan'), float('inf'), np.int64(7),
             np.float64(4.0), np.float32(1.5), '3', ' 4 ', '3.0', '1e3', 'nan', 'abc', '', '\u00b2', None, Obj()]
@@ -150,6 +174,13 @@ class C05:
             'the cell the value column hands out (value[1]); for dm.c = value the column must take the value\'s type (derived same-table columns are copied and '
             'type-checked, only one of the table\'s own columns is aliased). '
             '(3) 6 plain values x 8 scalar/sequence/cell/Row paths x the 14 non-fresh table states x 3 types. '
+            '(4) writes that address NO cell with a scalar: 21+5 table states (the 21 above, rows permuted, permuted then '
+            'selected, three zero-row tables) x 18 forms (empty selection in two spellings, empty slices 0:0 / n: / 2:1, '
+            'empty list / tuple / NumPy index; whole column, dm[name], selection, [:] on the zero-row table obtained by an '
+            'empty selection / an empty slice / a resize to 0) + 4 forms on a new zero-row table (constructor keyword, new '
+            'column with and without length=0, dm[name]); the whole alphabet on 6 (state, form) pairs, 13 valid / invalid '
+            'scalars on every form x 6 states, 5 on 8 forms x every state (thorough: everything x 38 values); the verdict is '
+            'judged against Spec/Table.rhs_cells with n = 0 and the column must be unchanged afterwards. '
             'thorough adds random ints/floats/strings and 6000 random (state, form, source, value) combinations. The cell is read '
             'back through col[i], iteration and Row access (all must agree and be plain int/float/str/None). '
             'non-trivial = the stored value differs from the assigned object or an exception is raised; distinct by '
@@ -522,6 +553,141 @@ class C05:
             'tags': [kind, 'ColVal', 'state:' + state, 'form:' + form, 'src:' + src, pv.split(' ')[0].strip('()')],
         }
 
+    # ---- writes that address no cell ---------------------------------------
+    def _zero_state(self, ct, state):
+        from datamatrix import DataMatrix
+
+        def base(n):
+            dm = DataMatrix(length=n)
+            dm.k = list(range(n))
+            dm.c = ct
+            return dm
+        if state in CV_STATES:
+            return self._state(ct, state)
+        if state == 'perm':                 # only some rows move
+            return base(4)[[2, 0, 3, 1]]
+        if state == 'permSelect':           # ... and then the table is narrowed down
+            a = base(6)[[5, 2, 0, 4, 3, 1]]
+            return a.k >= 2
+        if state == 'len0':
+            return base(0)
+        if state == 'len0Cat':
+            return base(0) << base(0)
+        if state == 'len0Sorted':
+            from datamatrix import operations as ops
+            a = base(0)
+            return ops.sort(a, by=a.k)
+        raise AssertionError(state)
+
+    def _write_zero(self, kind, state, form, v):
+        """-> ('prep', text) | ('exn', name) | ('ok', None) | ('bad', text)"""
+        from datamatrix import DataMatrix
+        ct = coltype(kind)
+        if form in ZERO_CTOR_FORMS:
+            try:
+                if form == 'Len0Ctor':
+                    t = DataMatrix(length=0, default_col_type=ct, c=v)
+                elif form == 'Len0New':
+                    t = DataMatrix(length=0, default_col_type=ct)
+                    t.c = v
+                elif form == 'NoLenNew':
+                    t = DataMatrix(default_col_type=ct)
+                    t.c = v
+                else:
+                    t = DataMatrix(length=0, default_col_type=ct)
+                    t['c'] = v
+            except Exception as e:      # noqa: BLE001
+                return ('exn', pyobs.exn_name(e))
+            before = []
+        else:
+            try:
+                dm = self._zero_state(ct, state)
+                if form.startswith('SelTable'):
+                    t = dm.k > 99
+                elif form.startswith('SliceTable'):
+                    t = dm[0:0]
+                else:
+                    t = dm
+                    if form.startswith('Shrunk'):
+                        t.length = 0
+                if form in ('EmptySel', 'EmptySelAnd'):
+                    key = (t.k > 99) if form == 'EmptySel' else ((t.k > 0) & (t.k < 0))
+                    if len(key) != 0:
+                        return ('prep', 'the selection is not empty')
+                elif form.endswith('Sel'):
+                    key = t
+                elif form in ('EmptyList', 'ShrunkList'):
+                    key = []
+                elif form == 'EmptyTuple':
+                    key = ()
+                elif form == 'EmptyNpIndex':
+                    key = np.array([], dtype=int)
+                elif form == 'EmptySlice00':
+                    key = slice(0, 0)
+                elif form == 'EmptySliceEnd':
+                    key = slice(len(t), None)
+                elif form == 'EmptySliceRev':
+                    key = slice(2, 1)
+                elif form.endswith('SliceAll'):
+                    key = slice(None)
+                else:
+                    key = None              # whole-column assignment
+                if key is None and len(t) != 0:
+                    return ('prep', 'whole-column form on a table with rows')
+                if type(t.c) is not ct:
+                    return ('prep', 'column type is %s before the write' % type(t.c).__name__)
+                before = [pyobs.val(x) for x in t.c]
+            except Exception as e:      # noqa: BLE001  (only operations that must succeed)
+                return ('prep', 'building the table state %s / the key of %s raised %s' % (state, form, pyobs.exn_name(e)))
+            try:
+                if key is None:
+                    if form.endswith('SetItem'):
+                        t['c'] = v
+                    else:
+                        t.c = v
+                else:
+                    t.c[key] = v
+            except Exception as e:      # noqa: BLE001
+                return ('exn', pyobs.exn_name(e))
+        try:
+            if type(t.c) is not ct:
+                return ('bad', 'column type is %s, expected %s' % (type(t.c).__name__, ct.__name__))
+            after = [pyobs.val(x) for x in t.c]
+        except Exception as e:          # noqa: BLE001
+            return ('bad', 'reading the column after the write raised %s' % pyobs.exn_name(e))
+        if after != before:
+            return ('bad', 'a write that addresses no cell changed the column: %r -> %r' % (before, after))
+        return ('ok', None)
+
+    def _rerun_zero(self, inp):
+        kind, v = inp['kind'], self._decode(inp['value'])
+        _tag, state, form = inp['path'].split('/')
+        if not self.applicable(kind, 'Zero', v):
+            return None
+        with warnings.catch_warnings():
+            warnings.simplefilter('ignore')
+            out = self._write_zero(kind, state, form, v)
+        pyfail = None
+        if out[0] == 'exn':
+            obs_lit = '(Some %s)' % out[1]
+            observed = {'raises': out[1]}
+        elif out[0] == 'ok':
+            obs_lit = 'None'
+            observed = {'accepted': True}
+        else:
+            obs_lit = '(Some OtherError)'
+            observed = {out[0]: out[1]}
+            pyfail = out[1]
+        pv = pyobs.pyv(v)
+        return {
+            'input': inp, 'observed': observed, 'pyfail': pyfail,
+            'oracle': '(oracle_zero %s %s %s)' % (kind, pv, obs_lit),
+            'model': '(model_agrees_zero %s %s %s)' % (kind, pv, obs_lit),
+            'nontrivial': out[0] != 'ok',
+            'sig': '%s|%s|%s' % (kind, inp['path'], pv),
+            'tags': [kind, 'Zero', 'state:' + state, 'zform:' + form, pv.split(' ')[0].strip('()')],
+        }
+
     def applicable(self, kind, path, v):
         if path.endswith('Np') and not (type(v) in (int, float) and abs(v) < 2 ** 63 if type(v) is int else type(v) is float):
             return False
@@ -561,6 +727,8 @@ class C05:
     def rerun(self, inp):
         if inp['path'].startswith('ColVal/'):
             return self._rerun_colval(inp)
+        if inp['path'].startswith('Zero/'):
+            return self._rerun_zero(inp)
         kind, path, v = inp['kind'], inp['path'], self._decode(inp['value'])
         with warnings.catch_warnings():
             warnings.simplefilter('ignore')
@@ -737,6 +905,37 @@ class C05:
                         c = self.rerun({'kind': kind, 'path': path, 'value': self._encode(v)})
                         if c is not None:
                             cases.append(c)
+        # writes that address no cell: the whole alphabet on six core (state, form) pairs, a small set of valid and
+        # invalid values on every table state x every zero-cell form
+        zero = []
+        for i, (state, form) in enumerate(ZERO_CORE):
+            for v in values + (ext if i == 0 or tier == 'thorough' else []):
+                zero.append((state, form, v))
+        small = zero_values_small() if tier != 'thorough' else zero_values_small() + cv_values()
+        for state in CV_STATES + ZERO_EXTRA_STATES:
+            for form in ZERO_FORMS:
+                if tier == 'thorough' or state in ZERO_STATES_QUICK:
+                    vs = small
+                elif form in ZERO_FORMS_QUICK:
+                    vs = ['abc', None, Obj(), 1.0, float('nan')]
+                else:
+                    continue
+                for v in vs:
+                    zero.append((state, form, v))
+        for form in ZERO_CTOR_FORMS:
+            for v in small + cv_values():
+                zero.append(('-', form, v))
+        seen = set()
+        for kind in KINDS:
+            for state, form, v in zero:
+                inp = {'kind': kind, 'path': 'Zero/%s/%s' % (state, form), 'value': self._encode(v)}
+                key = repr(sorted(inp.items()))
+                if key in seen:
+                    continue
+                seen.add(key)
+                c = self.rerun(inp)
+                if c is not None:
+                    cases.append(c)
         shutil.rmtree(self.tmpdir, ignore_errors=True)
         self.tmpdir = os.path.dirname(self.tmpdir)       # later re-runs (shrinking, search, replay) use .work itself
         return cases
